@@ -4,7 +4,7 @@
    queue, one retry iteration in atomic actions, compaction cap; every commit takes an environment choice).
    A label list is an arbitrary interleaving of all of these, with arbitrary fault placements. *)
 From KB Require Import Base.Cases Model.RetrySys Model.C09Cases
-  Proofs.RetryBase Proofs.RetryInv1 Proofs.RetryInv2 Proofs.RetryProps Proofs.RetryInv3 Proofs.RetryInvX Proofs.RetryAck Proofs.C09Cases Proofs.C09Sim Proofs.RetryWitness.
+  Proofs.RetryBase Proofs.RetryInv1 Proofs.RetryInv2 Proofs.RetryProps Proofs.RetryInv3 Proofs.RetryInvX Proofs.RetryAck Proofs.C09Cases Proofs.C09Sim Proofs.C09Oracle Proofs.RetryWitness.
 Local Open Scope N_scope.
 
 (* ---------- error class ---------- *)
@@ -126,7 +126,8 @@ Example C09_former_findings_converge :
      map ev_obs (s_events s) = [(VPut, 0, [], 13, 13); (VCreate, 0, v1, 11, 11)]).
 Proof. exact fixed_scenarios_ok. Qed.
 
-(* the correspondence oracle on observations the model itself produces (not a soundness proof, see props/C09.json "gaps") *)
+(* the correspondence oracle on observations the model itself produces (instances; the general statement is
+   C09_oracle_sound below) *)
 Example C09_oracle_on_model :
   (c09_check (self_case sc_clean) = true /\ c09_oracle (self_case sc_clean) = None) /\
   (c09_check (self_case sc_F1) = true /\ c09_oracle (self_case sc_F1) = None) /\
@@ -134,12 +135,13 @@ Example C09_oracle_on_model :
 Proof. exact oracle_on_model. Qed.
 
 (* ---------- soundness of the correspondence oracle, clause by clause ----------
-   On a case that passed the check (the recorded observation IS the model's observation of the script) three of the
-   oracle's clauses are theorems; c09_oracle c = None needs three more (see props/C09.json "gaps").
-   c09_valid c: every script step is inside the stated assumptions (not step_outside; no repair commit answered with a bare
-   abort) — nothing else. c09_check c = true: the recorded observation and events are the model's, and (evaluated per case on
-   every run, part of the check since it is not yet a theorem for all scripts) wherever the oracle's bookkeeping over
-   observations regards a List as drained the model state is quiescent (drained_quiescent). *)
+   On a case that passed the check (the recorded observation IS the model's observation of the script) all six clauses of
+   the oracle are theorems, and so is their conjunction C09_oracle_sound: c09_oracle c = None.
+   c09_valid c: every script step is inside the stated assumptions (not step_outside; a DWrite carries a write request; no
+   repair commit answered with a bare abort) — nothing else; it is decidable (C09_oracle_valid_decidable).
+   c09_check c = true: the recorded observation and events are the model's, and (still evaluated per case on every run,
+   although it is now a theorem for every well-formed script: C09_oracle_drained_quiescent) wherever the oracle's
+   bookkeeping over observations regards a List as drained the model state is quiescent. *)
 Theorem C09_oracle_clause_class : forall c,
   Forall dstep_wf (c_script c) -> c09_check c = true -> forallb class_ok (c_obs c) = true.
 Proof. exact oracle_clause_class. Qed.
@@ -167,6 +169,25 @@ Print Assumptions C09_oracle_clause_book.
 Theorem C09_oracle_drained_quiescent : forall ds, Forall dstep_wf ds -> drained_quiescent minit book0 ds = true.
 Proof. exact drained_quiescent_holds. Qed.
 Print Assumptions C09_oracle_drained_quiescent.
+
+(* (4a) every acknowledged write whose revision is committed when the script ends has exactly one delivered event with its
+   revision, and that event carries the request's verb, key and value   [<- C09_ack_durable + unique event revisions] *)
+Theorem C09_oracle_clause_ack : forall c, c09_valid c -> c09_check c = true ->
+  forallb (ack_event_ok (c_events c) (final_committed (c_obs c))) (combine (c_script c) (c_obs c)) = true.
+Proof. exact oracle_clause_ack. Qed.
+Print Assumptions C09_oracle_clause_ack.
+
+(* (6) after a drained List, a conditional update at the listed revision of a listed key succeeds   [<- the simulation
+   (drained => quiescent) + Inv2: the listed revision is the newest version and the index agrees with it] *)
+Theorem C09_oracle_clause_probe : forall c, c09_valid c -> c09_check c = true -> cs_probe_ok (conv_of c) = true.
+Proof. exact oracle_clause_probe. Qed.
+Print Assumptions C09_oracle_clause_probe.
+
+(* all six clauses: on every case inside the stated assumptions whose recorded observation is the model's observation of
+   its script, the oracle reports no violation *)
+Theorem C09_oracle_sound : forall c, c09_valid c -> c09_check c = true -> c09_oracle c = None.
+Proof. exact oracle_sound. Qed.
+Print Assumptions C09_oracle_sound.
 
 Theorem C09_oracle_valid_decidable : forall c, c09_validb c = true -> c09_valid c.
 Proof. exact c09_validb_spec. Qed.
